@@ -903,17 +903,16 @@ def mixcase(rng, v):
 
 def alias_spellings(rng, verbs, full):
     """for EVERY verb v of the server: the spellings an alias / abbreviation / fallback mechanism could map to v and
-    that are not verbs themselves -- RFC 775 style `x`+v, v+`x`, truncations (v without its last letter, its first
+    that are not PASS -- RFC 775 style `x`+v, v+`x`, truncations (v without its last letter, its first
     three letters), v with a suffix (`d`, `wd`, `word`), v doubled -- lower, upper and mixed case.  The verb is what
     parse_command makes of the line (text before the first space), so the alias always carries the argument."""
-    known = set(verbs)
     out = []
     for v in verbs:
         cands = ["x" + v, v + "x", v[:-1], v[:3], v + "d", v + "wd", v + "word", v + v]
         if full:
             cands += ["x" + v + "x", "y" + v, v[1:], v[:2], v + "s", v + "1", "x-" + v, v + "_"]
         for a in cands:
-            if len(a) >= 2 and a not in known and a.lower() not in known:
+            if len(a) >= 2 and a.lower() != "pass":  # a spelling that happens to be a key of the mapping stays in: the oracle decides
                 out.append((v, a))
                 out.append((v, a.upper()))
                 if full:
@@ -1494,7 +1493,8 @@ def correspondence(ctx, budget=None):
                 ctx.disagree("A-run", [ctxname, V, q], "a verdict", f"{type(e).__name__}: {e}"[:200])
                 continue
             n_treated += treated
-            a_runs.append((ctxname, V, q, reply, cs))
+            if V.lower() not in verbs_now:  # a key of the mapping (pwd, mls.. or an alias ENTRY) is no "unknown verb" for the model
+                a_runs.append((ctxname, V, q, reply, cs))
             for kind, info in fails:
                 rp = {"key": "c20-alias-verb-" + kind, "driver": "raw", "context": ctxname, "verb": V, "alias_of": v0, "password": q,
                       "reply": reply, "reply_of_PASS_in_this_context": pass_reply(ctxname, q), "handed_to_authenticate": auth}
@@ -1510,7 +1510,8 @@ def correspondence(ctx, budget=None):
         ms = [mrec(x) for x in o]
         if not recs_match(ms, [irec(c) for c in session_body(split_loggers(cs)[0])]):
             ctx.disagree("A-server-records", [ctxname, V, q], ms, [irec(c) for c in session_body(split_loggers(cs)[0])])
-    ctx.count("A_alias_lines", len(a_runs))
+    ctx.count("A_alias_lines", len(aliases) * len(ALIAS_CONTEXTS))
+    ctx.count("A_alias_lines_compared_with_the_model", len(a_runs))
     ctx.count("A_alias_lines_treated_as_password", n_treated)
     ctx.extra["alias_stream"] = {"verbs": len(verbs_now), "aliases": len(aliases), "contexts": list(ALIAS_CONTEXTS),
                                  "reply_of_PASS_per_context": dict(_PASS_REPLY), "treated_as_password": n_treated}
